@@ -1,6 +1,9 @@
+//go:build verif
+
 // Package mon links all property monitors into the verifcheck binary.
 package mon
 
 import (
+	_ "verif/harness/mon/c01"
 	_ "verif/harness/mon/c19"
 )
